@@ -10,7 +10,7 @@ from pyvc.sstr import SStr, Atom, Fmt, sstr_concat
 from pyvc.report import Task
 from pyvc.tasks import repo
 from pyvc.solve import Obligation
-from pyvc.symex import explore, Obj
+from pyvc.symex import explore, built_instance, Obj
 from pyvc.builtins import EncodedStr, m_str_strip
 from contracts.wire import Msg, frames_for, header_contracts, c_decode_logger, finish, term, seq_eq, ENC, DEC
 from spec import specfun as S
@@ -50,8 +50,8 @@ class WireRoundTrip(Task):
             m = Msg(ex, r)
             g['m'] = m
             g['frames'] = frames_for(ex, lengths)
-            enc = Obj(r.cls('encoder', 'NMEA2000Encoder'), {'sequence_counter': ex.fresh('seq', bits=3)})
-            dec = Obj(r.cls('decoder', 'NMEA2000Decoder'), {})
+            enc = built_instance(ex, r.cls('encoder', 'NMEA2000Encoder'), {'sequence_counter': ex.fresh('seq', bits=3)})
+            dec = built_instance(ex, r.cls('decoder', 'NMEA2000Decoder'))
             outs = []
             if self.fmt == 'actisense':
                 g['k'] = ex.choose(len(lengths), 'payload-length')
